@@ -153,7 +153,7 @@ Definition op_code (o : op) : Z := match o with DELETE => -1 | INSERT => 1 | EQU
 Definition is_insert (o : op) : bool := match o with INSERT => true | _ => false end.
 Definition is_delete (o : op) : bool := match o with DELETE => true | _ => false end.
 Definition is_equal (o : op) : bool := match o with EQUAL => true | _ => false end.
-Definition seg := (op * str)%type.
+Notation seg := (op * str)%type.
 
 (* ------------------------------------------------------------------ *)
 (** * diff_commonPrefix, diff_commonSuffix, diff_commonOverlap *)
